@@ -4,7 +4,7 @@ import gc
 import random
 import threading
 
-from . import monitors, repo, simdev, transports, vclock
+from . import locks, monitors, repo, simdev, transports, vclock
 
 CLOSING_OPS = {"shell", "exec_out", "root", "list", "stat", "pull", "push", "streaming_shell"}
 
@@ -13,7 +13,7 @@ class Outcome(object):
     __slots__ = ("kind", "value", "exc", "partial")
 
     def __init__(self, kind, value=None, exc=None, partial=None):
-        self.kind = kind     # 'ret' | 'exc' | 'hang' | 'budget'
+        self.kind = kind     # 'ret' | 'exc' | 'hang' | 'budget' | 'deadlock'
         self.value = value
         self.exc = exc
         self.partial = partial   # streaming_shell: items yielded before the exception
@@ -44,7 +44,7 @@ class Outcome(object):
 
 class Session(object):
     def __init__(self, impl="sync", sim=None, clock=None, monitor=None, rng=None, default_transport_timeout_s=None,
-                 banner=b"verif", **core_kw):
+                 banner=b"verif", checked_locks=True, **core_kw):
         self.impl = impl
         self.rng = rng or random.Random(0)
         self.clock = clock or vclock.VClock()
@@ -55,6 +55,8 @@ class Session(object):
         core_kw.setdefault("rng", random.Random(self.rng.random()))
         self.core = transports.Core(self.sim, self.clock, monitor=self.monitor, **core_kw)
         vclock.install(self.clock)
+        if checked_locks:
+            locks.install()      # single-actor session: waiting for a held lock is a deadlock, reported exactly
         if impl == "sync":
             self.transport = transports.MemTransport(self.core)
             self.dev = repo.adb_device.AdbDevice(self.transport, default_transport_timeout_s=default_transport_timeout_s, banner=banner)
@@ -120,6 +122,8 @@ class Session(object):
             return Outcome("hang", exc=e, partial=value if isinstance(value, list) else None)
         except transports.BudgetExceeded as e:
             return Outcome("budget", exc=e, partial=value if isinstance(value, list) else None)
+        except locks.Deadlock as e:
+            return Outcome("deadlock", exc=e, partial=value if isinstance(value, list) else None)
         finally:
             self.monitor.end_call(rec, normal, self.sim)
 
@@ -149,6 +153,8 @@ class Session(object):
             return Outcome("hang", exc=e, partial=value if isinstance(value, list) else None)
         except transports.BudgetExceeded as e:
             return Outcome("budget", exc=e, partial=value if isinstance(value, list) else None)
+        except locks.Deadlock as e:
+            return Outcome("deadlock", exc=e, partial=value if isinstance(value, list) else None)
         finally:
             self.monitor.end_call(rec, normal, self.sim)
 
